@@ -589,6 +589,15 @@ func (p *pipe) _backgroundRead() (err error) {
 				unsub = false
 				continue
 			}
+			if unsub {
+				// An unsubscribe notification (proactive or confirming) is never the reply of a queued command:
+				// ignore it here, before it can take the next queue entry early (which would let the reader
+				// hold a ring slot whose command is still unflushed, blocking the writer) or be committed
+				// to the client-side cache by the branches below.
+				prply = false
+				unsub = false
+				continue
+			}
 		} else if ver == 6 && len(msg.values()) != 0 {
 			// This is a workaround for Redis 6's broken invalidation protocol: https://github.com/redis/redis/issues/8935
 			// When Redis 6 handles MULTI, MGET, or other multi-keys command,
